@@ -309,6 +309,7 @@ structure RunFacts (cfg : DispCfg) (h : Int) (s s' : DispState) (os : List (Key 
   bank : ∀ a d, a ≠ cfg.module → s'.bank.bal a d = s.bank.bal a d + paidTo os a d
   dists : s'.dists = s.dists
   supply : ∀ d, s'.bank.sup d = s.bank.sup d
+  bankModule : cfg.blocked cfg.module = true → ∀ d, s'.bank.bal cfg.module d + paidAll os d = s.bank.bal cfg.module d
   donePaid : ∀ x ∈ os, x.2.2 = .paid → sGet s'.completed x.1 = some { x.2.1 with done := h }
   doneFailed : ∀ x ∈ os, x.2.2 = .failed → sGet s'.failed x.1 = some { x.2.1 with done := h }
   claimsDel : ∀ x ∈ os, x.2.2 = .paid → x.2.1.typ.claimable = true →
@@ -346,6 +347,7 @@ theorem payAll_spec (cfg : DispCfg) (h : Int) :
     · intro a d _; simp [paidTo]
     · rfl
     · intro d; rfl
+    · intro _ d; simp [paidAll]
     · intro x hx; cases hx
     · intro x hx; cases hx
     · intro x hx; cases hx
@@ -403,7 +405,7 @@ theorem payAll_spec (cfg : DispCfg) (h : Int) :
           split at hk
           · exact (sGet_sDel_some hi.wf.sl hk).1
           · exact hk
-      refine ⟨?_, ?_, ?_, ?_, ?_, ?_, ?_, ?_, ?_, ?_, ?_, ?_, ?_, ?_⟩
+      refine ⟨?_, ?_, ?_, ?_, ?_, ?_, ?_, ?_, ?_, ?_, ?_, ?_, ?_, ?_, ?_⟩
       · intro k r' hk; exact hshrink1 k r' (hf.shrink k r' hk)
       · intro y hy hne
         simp at hy
@@ -465,6 +467,27 @@ theorem payAll_spec (cfg : DispCfg) (h : Int) :
           split at hs
           · cases hs
           · exact sup_sendCoins hs d
+      · intro hblk d
+        have ht := hf.bankModule hblk d
+        cases hrel with
+        | skipped _ => simp only [paidAll]; exact ht
+        | failed _ _ => simp only [paidAll]; exact ht
+        | paid b' _ hs =>
+          simp only [paidAll]
+          simp only at ht
+          have hesc := hi.escrow d
+          unfold escrowCovers at hesc
+          have hle := amt_le_sum s.pending r.key d
+          rw [amt_of_get hg] at hle
+          unfold sendModuleToAccount at hs
+          split at hs
+          · cases hs
+          · rename_i hnb
+            have hne : ¬ cfg.module = r.rcpt := by
+              intro e; rw [← e, hblk] at hnb; exact hnb rfl
+            have hb := bal_sendCoins hs cfg.module d
+            simp only [if_true, hne, if_false] at hb
+            omega
       · intro y hy hp
         simp at hy
         rcases hy with rfl | hy
